@@ -60,7 +60,12 @@ def setup(case):
                     cov.estimate_hyperpar_bounds(g.normal(size=Xe.shape[0]))
                     if Xe.shape[0] == n or not rk.has(spec, "Hetero"):
                         cov.build_covariance(gc.theta_from_unit(spec, case, X, ys))
-        cov.pass_spatial_data(X)
+        # (the coordinate array handed over is the caller's: it is overwritten here once the kernel has it, and the kernel goes on
+        # answering for the points it was given)
+        X_given = X.copy()
+        cov.pass_spatial_data(X_given)
+        X_given *= 3.0
+        X_given += 1.0
     except Exception as e:
         raise Violation(f"pass_spatial_data:{classify(spec, case['d'])}", f"{type(e).__name__}: {e}")
     theta = gc.theta_from_unit(spec, case, X, ys)
@@ -210,8 +215,8 @@ def _cp_axes(spec, n, d):
 
 def body_composite(case, ctx):
     """labels, bounds and parameter counts of a composite are those of its components, concatenated in order"""
-    if case.get("user_bounds") and case["kernel"]["k"] == "Sum":
-        # some components of a sum carry bounds specified by the user (in the documented form of their class)
+    if case.get("user_bounds") and case["kernel"]["k"] in ("Sum", "CP"):
+        # some components of a sum / change-point kernel carry bounds specified by the user (in the documented form of their class)
         g = np.random.Generator(np.random.PCG64(int(case["user_bounds"])))
         case = dict(case)
         parts = []
@@ -353,6 +358,17 @@ def body_means(case, ctx):
         err, tl, conv = numdiff.compare(np.asarray(grads[i], dtype=float), lambda t: mean.build_mean(t), th, i, hstep)
         if conv and err > tl + 1e-9 * np.max(np.abs(grads[i])):
             raise Violation(f"mean-gradient:{kind}", f"d mean / d theta[{i}] differs from stencil by {err:.3g} (tol {tl:.3g})")
+    # the gradient arrays handed out are the caller's to work with (scale them, add to them): the mean function answers the same again
+    firsts = [np.array(g, dtype=float, copy=True) for g in grads]
+    for g in grads:
+        if isinstance(g, np.ndarray) and g.flags.writeable:
+            with np.errstate(all="ignore"):
+                g *= 0.5
+                g += 2.0
+    m2, grads2 = mean.mean_and_gradients(th)
+    b2 = np.asarray(mean.build_mean(th), dtype=float)
+    if not np.array_equal(b2, built) or not np.array_equal(np.asarray(m2), built) or any(not np.array_equal(np.asarray(a, dtype=float), b) for a, b in zip(grads2, firsts)):
+        raise Violation(f"mean-gradient-buffer:{kind}", "after the caller changed the returned gradient arrays in place, build_mean / mean_and_gradients return other values")
     labels = mean.hyperpar_labels
     if len(labels) != th.size:
         raise Violation(f"mean-labels:{kind}", f"{len(labels)} labels for {th.size} parameters")
